@@ -89,6 +89,7 @@ class SlotClient(Client):
     def __init__(self, operands, same=None):
         self.operands = operands
         self.same = same        # None: the same-exact-type situation is not distinguished; 0/1: explored separately (rule C28-SAME)
+        self.mixed, self.exact_only = [], []
 
     def symmetric(self, d, env):
         """is the disjunct `d` the test "both operands have the same exact type" (or a flag holding it)?"""
@@ -110,10 +111,35 @@ class SlotClient(Client):
                 subj |= {o for o in self.operands if re.search(r'\b%s\b' % o, m.group(1))}
         for m in re.finditer(r'([^|&]*?)==\s*&?\s*%s\b' % re.escape(FUNC), text):
             subj |= {o for o in self.operands if re.search(r'\b%s\b' % o, m.group(1))}
+        # exact-type tests written as a comparison: Py_TYPE(x) == T  /  T == Py_TYPE(x)
+        for m in re.finditer(r'Py_TYPE\s*\(\s*(\w+)\s*\)\s*==\s*\(?\s*%s\b|\b%s\s*\)?\s*==\s*Py_TYPE\s*\(\s*(\w+)\s*\)' % (TYPE, TYPE), text):
+            o = m.group(1) or m.group(2)
+            if o in self.operands:
+                subj.add(o)
         return frozenset(subj)
+
+    SUBTYPE_TEST = re.compile(r'\b(__Pyx_TypeCheck|PyType_IsSubtype|__Pyx_IsSubtype|PyObject_TypeCheck|__Pyx_TypeTest|PyObject_IsInstance)\s*\(')
+
+    def note_flag(self, text, env):
+        """per-disjunct bookkeeping of a flag expression (clauses FLAGOP and SUBTYPE)"""
+        parts = [p for p in _split_or(text.strip()) if not self.symmetric(p, env)]
+        tests = [(p, self.subjects(p)) for p in parts]
+        tests = [(p, s) for p, s in tests if s]
+        if not tests:
+            return
+        ops = set()
+        for p, s in tests:
+            ops |= s
+        if len(ops) > 1:
+            self.mixed.append((' '.join(text.split())[:120], tuple(sorted(ops))))
+        admits = any(self.SUBTYPE_TEST.search(p) or re.search(r'==\s*&?\s*%s\b' % re.escape(FUNC), p) for p, s in tests)
+        if not admits:
+            self.exact_only.append((' '.join(text.split())[:120], tuple(sorted(ops))))
 
     def flag_values(self, text, env=None):
         t = text.strip()
+        if not any(c in t for c in CALLS.values()) and any(re.search(r'\b%s\b' % o, t) for o in self.operands):
+            self.note_flag(t, env)
         if self.same is not None:
             parts = [p for p in _split_or(t)]
             sym = [p for p in parts if self.symmetric(p, env)]
@@ -138,7 +164,27 @@ class SlotClient(Client):
             return [('F', e[1], frozenset())]
         if e[0] == 'id' and isinstance(env.get(e[1]), tuple):
             return [env[e[1]]]
+        if e[0] == 'call' and e[1] in CALLS.values():
+            # the result of the forward / reflected call; third field: 0 not compared with NotImplemented yet, 1 known to be a real result, 2 known to be NotImplemented
+            return [('R', [k for k, v in CALLS.items() if v == e[1]][0], 0)]
         return ['UNK']
+
+    def _result_test(self, e, env):
+        """(variable, polarity) when e compares a tracked call result with Py_NotImplemented: polarity True for `!=`"""
+        if e[0] == 'bin' and e[1] in ('==', '!='):
+            for a, b in ((e[2], e[3]), (e[3], e[2])):
+                if a[0] == 'id' and b[0] == 'id' and b[1] == 'Py_NotImplemented' and isinstance(env.get(a[1]), tuple) and env[a[1]][0] == 'R':
+                    return a[1], e[1] == '!='
+        return None
+
+    def assume(self, e, truth, env):
+        rt = self._result_test(e, env)
+        if rt is not None:
+            name, ne = rt
+            v = env[name]
+            env = dict(env)
+            env[name] = ('R', v[1], 1 if (truth == ne) else 2)
+        return env
 
     def values_text(self, text, env):
         return self.flag_values(text, env)
@@ -151,6 +197,11 @@ class SlotClient(Client):
             v = env.get(e[1])
             if isinstance(v, tuple) and v[0] == 'F':
                 return bool(v[1])
+        rt = self._result_test(e, env)
+        if rt is not None:
+            st = env[rt[0]][2]
+            if st:
+                return (st == 1) == rt[1]
         return None
 
     def assigned(self, name, value):
@@ -165,6 +216,9 @@ class SlotClient(Client):
         return ('call', side, held)
 
     def returned(self, text, env):
+        v = env.get(text.strip())
+        if isinstance(v, tuple) and v[0] == 'R':
+            return ('ret', 'result', v[1], v[2])
         if any(c in text for c in CALLS.values()):
             return ('ret', 'call')
         if re.search(r'\bPy_NotImplemented\b', text):
@@ -205,12 +259,26 @@ def dispatch_problems(template_text, what='BinopSlot'):
         user = {'left': bool(ol), 'right': bool(orr)}
         selfop = {'left': operands[0], 'right': operands[1]}
         npaths, ncalls = 0, {'left': 0, 'right': 0}
-        once_bad, self_bad, try_bad = {}, {}, {}
+        once_bad, self_bad, try_bad, blind_bad, mixed_bad, exact_bad = {}, {}, {}, {}, {}, {}
         for label, variant in pp_variants(body):
             # the situation "both operands have the same exact type" (a disjunct of both flags) is explored separately
             finals = set()
             for same in (0, 1):
-                finals |= {(env, trace) for env, trace in FlagExplorer(SlotClient(operands, same=same), cfg).run(variant)}
+                cl = SlotClient(operands, same=same)
+                got = {(env, trace) for env, trace in FlagExplorer(cl, cfg).run(variant)}
+                finals |= got
+                for ftext, ops in cl.mixed:
+                    mixed_bad.setdefault(ftext, (label, ops))
+                for ftext, ops in cl.exact_only:
+                    exact_bad.setdefault(ftext, (label, ops))
+                if not same:
+                    for env, trace in got:
+                        last = trace[-1] if trace else None
+                        if last and last[0] == 'ret' and last[1] == 'result' and last[3] == 0:
+                            calls = [ev[1] for ev in trace if ev[0] == 'call']
+                            other = 'right' if last[2] == 'left' else 'left'
+                            if other not in calls:
+                                blind_bad.setdefault(last[2], label)
             npaths += len(finals)
             for env, trace in finals:
                 calls = [ev for ev in trace if ev[0] == 'call']
@@ -230,9 +298,36 @@ def dispatch_problems(template_text, what='BinopSlot'):
                                     try_bad.setdefault(side, (label, ev[1]))
         if not npaths:
             raise AnalysisError('%s: no path through the slot function' % cfg)
+        insts.append(('%s:flags' % cfg, '%s: every flag type-checks one operand and admits subclass instances' % cfg))
+        for ftext, (label, ops) in sorted(mixed_bad.items()):
+            probs['%s:flags:mixed-operands' % cfg] = ('with overloads_left=%d, overloads_right=%d the flag expression `%s` combines type tests of `%s` and `%s` (#if: %s): the flag can be set by the '
+                                                     'wrong operand, and the method guarded by it then runs with a self that was never checked / is skipped for the operand that was' % (ol, orr, ftext, ops[0], ops[1], label))
+        for ftext, (label, ops) in sorted(exact_bad.items()):
+            probs['%s:flags:no-subtype-test' % cfg] = ('with overloads_left=%d, overloads_right=%d the flag expression `%s` (#if: %s) contains no test that is true for an instance of a subclass of the '
+                                                      'extension type (__Pyx_TypeCheck / PyType_IsSubtype / own-slot comparison): subclass operands never reach the user\'s method' % (ol, orr, ftext, label))
+        mcs = re.search(r'\b%s_maybe_call_slot\s*\(([^(){};]*)\)\s*\{' % re.escape(FUNC), expanded)
+        if mcs:
+            hp = [re.findall(r'\w+', p)[-1] for p in mcs.group(1).split(',') if p.strip()]
+            hb0 = mcs.end() - 1
+            hbody = expanded[hb0:_match_brace(expanded, hb0) + 1]
+            calls_ = re.findall(r'\bslot\s*\(([^()]*)\)', hbody)
+            k = '%s:maybe_call_slot:args' % cfg
+            insts.append((k, '%s: inherited slot called with %s' % (k, calls_)))
+            if not calls_ or len(hp) < 3:
+                raise AnalysisError('%s: {{func_name}}_maybe_call_slot no longer calls the slot pointer of the base type' % cfg)
+            for a in calls_:
+                got = [x.strip() for x in a.split(',') if x.strip()]
+                if got[:2] != hp[1:3]:
+                    probs[k] = ('{{func_name}}_maybe_call_slot(type, %s, %s) calls the inherited slot with (%s): the base type\'s operator sees its operands exchanged '
+                                '(a - b computed as b - a for an operator inherited from a cdef base class)' % (hp[1], hp[2], ', '.join(got[:2])))
         for side in ('left', 'right'):
             k = '%s:call_%s' % (cfg, side)
             kind = 'user method' if user[side] else 'base-type slot'
+            if side in blind_bad:
+                other = 'right' if side == 'left' else 'left'
+                probs[k + ':result-untested'] = ('with overloads_left=%d, overloads_right=%d the slot function returns the result of {{call_%s}} without comparing it with Py_NotImplemented on a path where '
+                                                 '{{call_%s}} has not been tried and the operands have different types (#if: %s): a %s returning NotImplemented is never followed by the %s method of the other operand' % (
+                                                     ol, orr, side, other, blind_bad[side], 'forward method' if side == 'left' else 'reflected method', 'reflected' if side == 'left' else 'forward'))
             insts.append((k + ':once', '%s (%s): at most once on each of %d paths' % (k, kind, npaths)))
             insts.append((k + ':tried', '%s: made before giving up whenever a flag says %s may be self' % (k, selfop[side])))
             if user[side]:
@@ -349,4 +444,139 @@ def rule_same_type(ctx, floor=3):
     _, bad = same_type_problems(CONTROL, 'control')
     _, good = same_type_problems(FIXED_CONTROL, 'control')
     r.positive_control(len(bad) == 3 and not good, 'reflected method tried for operands of identical type; silent on the same_type-guarded variant')
+    return r
+
+
+# ======================================================================================= C28-GEN
+import ast as _ast
+
+
+def _fn_aliases(fn):
+    """locals of fn bound exactly once by a plain assignment: name -> value node"""
+    from ..engine.pyindex import walk_no_nested
+    seen = {}
+    for n in walk_no_nested(fn):
+        if isinstance(n, _ast.Assign):
+            for t in n.targets:
+                if isinstance(t, _ast.Name):
+                    seen.setdefault(t.id, []).append(n.value)
+        elif isinstance(n, (_ast.AugAssign, _ast.For)) and isinstance(getattr(n, 'target', None), _ast.Name):
+            seen.setdefault(n.target.id, []).extend([None, None])
+    return {k: v[0] for k, v in seen.items() if len(v) == 1 and v[0] is not None}
+
+
+def names_desc(ix, m, fn, arg, depth=0):
+    """what a `names` argument of scope.defines_any_special denotes: ('attr', attribute of the slot object) | ('names', frozenset) | ('expr', text)"""
+    from . import pC28 as H
+    from ..core import node_src
+    if depth > 4:
+        return ('expr', node_src(arg, 80))
+    if isinstance(arg, _ast.Call) and isinstance(arg.func, _ast.Name) and arg.func.id in ('list', 'tuple', 'set', 'frozenset', 'sorted') and len(arg.args) == 1:
+        return names_desc(ix, m, fn, arg.args[0], depth + 1)
+    if isinstance(arg, (_ast.List, _ast.Tuple, _ast.Set)) and all(isinstance(e, _ast.Constant) and isinstance(e.value, str) for e in arg.elts):
+        return ('names', frozenset(e.value for e in arg.elts))
+    if isinstance(arg, _ast.Name):
+        al = _fn_aliases(fn)
+        if arg.id in al:
+            return names_desc(ix, m, fn, al[arg.id], depth + 1)
+        v = H.module_globals(ix, m).get(arg.id)
+        if isinstance(v, (list, tuple, set, frozenset)) and all(isinstance(x, str) for x in v):
+            return ('names', frozenset(v))
+    if isinstance(arg, _ast.Attribute) and isinstance(arg.value, _ast.Name):
+        al = _fn_aliases(fn)
+        if arg.value.id in ('self', 'slot') or arg.value.id in [a.arg for a in fn.args.args]:
+            return ('attr', arg.attr)
+        ns = H.module_globals(ix, m).get(arg.value.id)
+        v = getattr(ns, arg.attr, None) if ns is not None else None
+        if isinstance(v, (list, tuple, set, frozenset)) and all(isinstance(x, str) for x in v):
+            return ('names', frozenset(v))
+    return ('expr', node_src(arg, 80))
+
+
+def _dsa_args(node):
+    return [c.args[0] for c in _ast.walk(node) if isinstance(c, _ast.Call) and isinstance(c.func, _ast.Attribute) and c.func.attr == 'defines_any_special' and c.args]
+
+
+def _show(d):
+    return ('the slot attribute .%s' % d[1]) if d[0] == 'attr' else ('{%s}' % ', '.join(sorted(d[1]))) if d[0] == 'names' else '`%s`' % d[1]
+
+
+def rule_gen(ctx, floor=3):
+    """two cooperating sites: ModuleNode emits the synthesised slot function F under a predicate, TypeSlots writes the name of F into the type slot under a predicate"""
+    from . import pC28 as H
+    from ..engine.pyindex import walk_no_nested
+    ix = ctx.index
+    r = Rule('C28-GEN', 'the predicate under which ModuleNode emits a synthesised slot function (tp_richcompare, nb_* binop) is the predicate under which TypeSlots puts that function\'s name into the '
+             'slot (same `defines_any_special` name set), and the six rich comparison methods are special methods with a binary signature', floor)
+    mn, ts = ix.mod('Compiler.ModuleNode'), ix.mod('Compiler.TypeSlots')
+    mcls = ix.cls('Compiler.ModuleNode', 'ModuleNode')
+    if mcls is None or ts is None:
+        raise AnalysisError('ModuleNode / TypeSlots vanished')
+    gen = {}
+    for fname, fn in mcls.methods.items():
+        for n in walk_no_nested(fn):
+            if not isinstance(n, _ast.If):
+                continue
+            for st in n.body:
+                for c in _ast.walk(st) if isinstance(st, _ast.Expr) else ():
+                    if isinstance(c, _ast.Call) and isinstance(c.func, _ast.Attribute) and c.func.attr in ('generate_richcmp_function', 'generate_binop_function') \
+                            and isinstance(c.func.value, _ast.Name) and c.func.value.id == 'self':
+                        args = _dsa_args(n.test)
+                        if len(args) != 1:
+                            raise AnalysisError('ModuleNode.%s: the condition guarding %s has %d defines_any_special tests' % (fname, c.func.attr, len(args)))
+                        gen.setdefault(c.func.attr, []).append((names_desc(ix, mn, fn, args[0]), n.lineno, fname))
+    slot_sites = {}
+    for what, clsname in (('generate_richcmp_function', 'RichcmpSlot'), ('generate_binop_function', 'BinopSlot')):
+        c = ix.cls('Compiler.TypeSlots', clsname)
+        if c is None:
+            raise AnalysisError('TypeSlots.%s vanished' % clsname)
+        fm = ix.find_method(c, 'slot_code')
+        if fm is None:
+            raise AnalysisError('TypeSlots.%s has no slot_code' % clsname)
+        owner, fn = fm
+        args = _dsa_args(fn)
+        if len(args) != 1:
+            raise AnalysisError('%s.slot_code has %d defines_any_special tests' % (owner.qual, len(args)))
+        slot_sites[what] = (names_desc(ix, owner.module, fn, args[0]), fn.lineno, owner)
+    for what in ('generate_richcmp_function', 'generate_binop_function'):
+        if what not in gen:
+            raise AnalysisError('ModuleNode no longer calls self.%s under a defines_any_special test' % what)
+        sd, sline, owner = slot_sites[what]
+        for gd, gline, fname in gen[what]:
+            key = 'ModuleNode.%s:%s:predicate' % (fname, what)
+            r.inst(key, sample='%s: emitted under %s, slot filled under %s (%s.slot_code)' % (key, _show(gd), _show(sd), owner.qual))
+            if gd != sd:
+                r.violate(key, mn.rel, gline, 'ModuleNode.%s emits the function of %s when the type defines any of %s, but %s.slot_code puts its name into the type slot when the type defines any of %s: '
+                          'for a type in the difference the slot refers to a function that is not emitted, or stays 0 although the methods exist (the operator raises TypeError)' % (
+                              fname, what.replace('generate_', '').replace('_function', ''), _show(gd), owner.qual, _show(sd)))
+    # the comparison methods are special
+    st = ix.cls('Compiler.TypeSlots', 'SlotTable')
+    fn = st.methods.get('get_special_method_signature') if st else None
+    if fn is None:
+        raise AnalysisError('TypeSlots.SlotTable.get_special_method_signature vanished')
+    six = frozenset(H.RICHCMP)
+    param = fn.args.args[1].arg if len(fn.args.args) > 1 else None
+    found = None
+    for n in walk_no_nested(fn):
+        if isinstance(n, _ast.If) and isinstance(n.test, _ast.Compare) and len(n.test.ops) == 1 and isinstance(n.test.ops[0], _ast.In) \
+                and isinstance(n.test.left, _ast.Name) and n.test.left.id == param and names_desc(ix, ts, fn, n.test.comparators[0]) == ('names', six):
+            rets = [x for x in n.body if isinstance(x, _ast.Return)]
+            found = (rets[0].value if rets else None, n.lineno)
+    key = 'TypeSlots.SlotTable.get_special_method_signature:richcmp'
+    r.inst(key, sample='%s -> %s' % (key, _ast.unparse(found[0]) if found and found[0] is not None else None))
+    if found is None or found[0] is None or (isinstance(found[0], _ast.Constant) and found[0].value is None):
+        r.violate(key, ts.rel, fn.lineno, 'get_special_method_signature returns no signature for __eq__/__ne__/__lt__/__le__/__gt__/__ge__: the comparison methods of an extension type are compiled as '
+                  'ordinary methods (entry.is_special False), defines_any_special() never sees them, no tp_richcompare is generated and `==`/`<` fall back to identity / TypeError')
+    else:
+        sig = found[0]
+        node = ts.bindings.get(sig.id) if isinstance(sig, _ast.Name) else None
+        fmt = None
+        if isinstance(node, _ast.Call) and len(node.args) >= 2 and all(isinstance(a, _ast.Constant) for a in node.args[:2]):
+            fmt = (node.args[0].value, node.args[1].value)
+        r.inst(key + ':arity', sample='%s: %s' % (key, fmt))
+        if fmt is None:
+            r.info('%s: the signature %s is not a module-level Signature(...) literal; arity not compared' % (key, _ast.unparse(sig)))
+        elif len(fmt[0]) != 2 or fmt[1] != 'O':
+            r.violate(key + ':arity', ts.rel, found[1], 'the rich comparison methods get the signature Signature(%r, %r): they take (self, other) and return an object' % fmt)
+    r.positive_control(names_desc(ix, ts, fn, _ast.parse("['__eq__']").body[0].value) != ('names', six), 'a one-name list differs from the six comparison methods')
     return r
